@@ -106,7 +106,10 @@ def _containment(nl, nr):
                 if c_.status == 0:
                     row = c_.rows[-1]
                     hints.append(e.comb_hint(c_, p, row, c_.b[-1]))
-            h.ensure("C03.containment.true_only_if_contained", z3.Implies(L(p), R(p)), hints=hints)
+            # the property's numerical reading: a True answer is wrong only if some point of the left side breaks a
+            # right-hand constraint by more than 1e-4*(1+|constant|)
+            Rtol = e.poly(ar.rows, [to_real(x) + TAU * (1 + z3.If(to_real(x) >= 0, to_real(x), -to_real(x))) for x in br.data])
+            h.ensure("C03.containment.true_only_if_contained_within_tolerance", z3.Implies(L(p), Rtol(p)), hints=hints)
         elif r is False:
             h.cover("False")
             wits = [c_.witness for c_ in calls if c_.witness is not None]
